@@ -830,12 +830,17 @@ func (vfs *MemFS) RemoveAll(path string) (err error) {
 
 	if child == node(parent) {
 		// The root directory is its own parent: it is emptied but can't be removed.
+		avfs.VerifBeforeLock(&parent.mu, false)
+		parent.mu.RLock()
+		gone := parent.removed // the root of a view stays removed when its directory was removed through the parent.
+		parent.mu.RUnlock()
+
 		err = vfs.removeAll(parent, true)
 		if err == nil {
 			avfs.VerifBeforeLock(&parent.mu, true)
 			parent.mu.Lock()
 			parent.children = nil
-			parent.removed = false // the root directory itself stays.
+			parent.removed = gone // the root directory itself stays.
 			parent.mu.Unlock()
 
 			err = vfs.err.InvalidArgument
